@@ -509,6 +509,30 @@ def first_difference(a, b, path='doc'):
     return None if a == b else '%s: model %r, text %r' % (path, a, b)
 
 
+def renamed_clone(netlist):
+    """a clone in which every character of a name that is not an identifier character is replaced (escaped names are
+    left alone); None when that makes two siblings collide"""
+    n2 = netlist.clone()
+    for lib in n2.libraries:
+        if lib.name == W.ASSIGN_LIB:
+            continue
+        for d in lib.definitions:
+            for group in ([x for x in d.cables], [x for x in d.children if not W.is_assign_instance(x)], [x for x in d.ports]):
+                seen = set(o.name for o in group)
+                for o in group:
+                    nm = o.name
+                    if nm is None or nm.startswith('\\') or re.fullmatch(r'[A-Za-z_][A-Za-z0-9_]*', nm):
+                        continue
+                    new = re.sub(r'[^A-Za-z0-9_]', '_S_', nm)
+                    if not re.match(r'[A-Za-z_]', new):
+                        new = '_' + new
+                    if new in seen:
+                        return None
+                    seen.add(new)
+                    o.name = new
+    return n2
+
+
 def check(run, source, netlist, opts, real_items, text, describe, reread=None):
     """run: the Run of verilog_check (stats, handle_items, emit counters)"""
     st = run.emit
@@ -520,6 +544,16 @@ def check(run, source, netlist, opts, real_items, text, describe, reread=None):
     model = model_outcome(run_model(line))
     if model[0] == 'unsup':
         st['skipped_outside_modelled_subset'][model[1]] += 1
+        if model[1] == 'name' and not source.endswith('-renamed'):
+            # the same netlist with the offending characters replaced (what flatten leaves: "u/w"): the writer model vs
+            # Composer on the rest of it, e.g. assignment instances across cables (open finding V04-assign-not-one-slice)
+            try:
+                n2 = renamed_clone(netlist)
+            except Exception:  # noqa
+                n2 = None
+            if n2 is not None:
+                st['renamed_and_compared'] += 1
+                check(run, source + '-renamed', n2, opts, None, None, describe)
         return
     problems = []
     if model[0] == 'driver':
